@@ -320,6 +320,12 @@ func TestCheck(t *testing.T) {
 	run.Assume("forms model (forms_test.go): go-sql-driver/mysql text and binary protocol with and without parseTime, loc=UTC; go-mysql RowsEvent.decodeValue of the pinned version; TestModelAgainstRealDecoders pins the facts it relies on")
 	run.Assume("excluded as outside the quantifier: NaN/Inf; strings that are not valid UTF-8; times with sub-microsecond digits or outside 1000..9999; a pointer to a value that is itself NULL (nil slice, Null*{Valid:false}); FLOAT text output for values MySQL itself prints lossily (6 digits)")
 	run.Assume("binlog DATETIME(6): the pinned go-mysql drops the fraction, so the expected struct has the time cut to whole seconds")
+	run.Assume("value stability: every value list thunder produces for one or several rows (UnbuildStruct, Make{Insert,Update,Delete,Upsert}Row, MakeBatch{Insert,Upsert}Row, the driver arguments of DB.InsertRows/UpsertRows with a random chunk size, 2..5 rows, sometimes the same row twice) " +
+		"is retained and compared after the whole batch was produced with reference values taken one column at a time from the column's own Valuer and copied at once; each row's slice of a multi-row insert is decoded back; " +
+		"a one-column filter from x (every json column, a sample of the others) must match a probe row iff the probe's reference value equals x's: same value, another value of the same encoded length, the value of an unrelated row")
+	run.Assume("schema change on one Binlog instance (one case in three): rows event, then a new table id whose information_schema column order is a fresh permutation with the same column count, then a rows event written in the new order; " +
+		"one case in six only changes the table id; both rows must invalidate the all-columns dependency")
+	run.Assume("the forms-model self-validation writes harness-made SQL values only (never thunder output) into the binlog file parsed by go-mysql")
 	run.Assume("filters (3 per case over 0..all columns; rows R = x, an unrelated row and two hybrids, each as decoded from MySQL's text form): judged when every value denotes a value of its column's Go type " +
 		"(own value, pointer to / dereferenced value, typed or untyped nil, the same integer in another Go integer type, the plain column's driver value); filters with a foreign-typed, out-of-range or inexact value, " +
 		"or the encoded bytes of a tagged/Valuer column, are executed and recorded (observation_illtyped_filter:*) but not judged")
@@ -332,11 +338,13 @@ func TestCheck(t *testing.T) {
 		return
 	}
 	// Pin the binlog forms of the model to what the real go-mysql decoder returns.
-	mrows := 40
+	// Only harness-made values are used here (never thunder output), so a
+	// disagreement is a harness fault by construction.
+	mrows := 400
 	if run.Thorough() {
-		mrows = 400
+		mrows = 4000
 	}
-	mchecked, merr := validateBinlogModel(z, run.Seed(), mrows)
+	mchecked, merr := validateBinlogModel(run.Seed(), mrows)
 	if merr != nil {
 		run.Broken("the forms model disagrees with the pinned go-mysql decoder: " + merr.Error())
 		return
@@ -421,6 +429,19 @@ func checkCase(run *vlib.Run, z *zoo, env *env, i int) {
 			run.Count("non_driver_value:"+ti.name+"."+c.names[k], 1)
 		}
 	}
+	// Reference values (one column at a time, copied at once) and a copy of what
+	// UnbuildStruct returned: compared now that the whole row has been produced,
+	// and again at the end of the case.
+	ref, rerr := c.refValues(x)
+	if rerr != nil {
+		c.violate("", c.wit(map[string]interface{}{"what": "a column's Valuer failed on a field UnbuildStruct accepted", "err": rerr.Error()}))
+		return
+	}
+	c.checkValueStability(ref)
+	valsCopy := make([]driver.Value, len(vals))
+	for k, v := range vals {
+		valsCopy[k] = snapshot(v)
+	}
 
 	// shape / coverage
 	rc := run.Rand("col", i)
@@ -481,6 +502,15 @@ func checkCase(run *vlib.Run, z *zoo, env *env, i int) {
 	// (5) tester reflexivity, (6) filters through protobuf
 	c.checkTester()
 	c.checkFilters(choices)
+
+	// value lists of statement builders and batches; tester discrimination
+	c.checkBatches(env)
+	c.checkTesterDiscrimination(ref)
+
+	if d := firstDiff(vals, valsCopy); d >= 0 {
+		c.violate("", c.wit(map[string]interface{}{"what": "a column value returned by UnbuildStruct changed after it was returned", "column": c.names[d],
+			"value_when_returned": show(valsCopy[d]), "value_now": show(vals[d])}))
+	}
 
 	if !reflect.DeepEqual(x.Interface(), xRef.Interface()) {
 		c.violate("", c.wit(map[string]interface{}{"what": "the row was modified by encoding/testing", "before": showStruct(xRef.Interface())}))
